@@ -44,6 +44,10 @@ PROPS = {
                 undecided_sentences=["'no outside system ... ever overlaps the batch' in time (trusted execution discipline); inner thread-local systems are outside the union (known finding KF1, reported under C12)"]),
     "C18": dict(runs=[dict(unit=U1, groups=["tot"], mode="T"), dict(unit=U1, groups=["grd"], mode="P")], own_groups=["tot", "grd", "T", "P"], owns_shared="safety",
                 undecided_sentences=["'with a message quoting the offending name': string formatting is outside Verus; only 'the call does not return' is decided"]),
+    "C19": dict(runs=[dict(unit=U1, groups=["fun"], mode="T"), dict(unit=U1, groups=["fun"], mode="T", features=("shred-derive",))], own_groups=["fun"],
+                fail_undecided="the code no longer equals the reference placement function (whether the new function is still deterministic and invariant is not decided by the proof)",
+                undecided_sentences=["'in every process': the proof is about the function the code computes; nondeterminism of the platform below it (allocator, hasher seeds) is excluded because no placement decision reads it",
+                                     "the renaming of *systems* is covered by construction (no spec function takes a name; ids are the registration counter), not by a separate lemma"]),
     "C20": dict(runs=[dict(unit=U1, groups=["plan"], mode="T")], own_groups=["plan"], owns_shared="safety",
                 undecided_sentences=["the text itself: format strings and the sanitised / placeholder labels are uninterpreted (the label of a named system is sanitise(a name registered for that id), of an unnamed one sanitise(placeholder(id)))",
                                      "'at the position at which the built dispatcher really runs it': the printed table is the id table; that it has the shape of the executed list is the lock-step invariant (C04) and build() returning that list"]),
